@@ -85,7 +85,24 @@ class Registry:
 
     def add_class(self, ci: ClassInfo):
         self.classes[ci.name] = ci
+        self._recompute_subclasses()
         return ci
+
+    def _recompute_subclasses(self):
+        sub = {}
+        for c in self.classes.values():
+            todo, seen = list(c.bases), set()
+            while todo:
+                b = todo.pop()
+                if b in seen:
+                    continue
+                seen.add(b)
+                sub.setdefault(b, set()).add(c.name)
+                if b in self.classes:
+                    todo.extend(self.classes[b].bases)
+        self.subclasses = sub
+        S.SUBCLASSES.clear()
+        S.SUBCLASSES.update(sub)
 
     def extern(self, dotted, trusted_name=None):
         def deco(f):
